@@ -399,3 +399,150 @@ Proof.
       split; [rewrite Hg; apply real_ff_other; [exact Eu|exact Er]|]. split; [exact Hs|]. split; [exact H1|]. split; [exact H2|].
       split; [rewrite Hg; apply real_ff_other; [exact Eu|exact Er]|intros _ _; exact Hv].
 Qed.
+
+(* ---------------------------------------------------------------- Source::wrap_and_sort / Binary::wrap_and_sort *)
+Lemma str_eqb_true a b : str_eqb a b = true -> a = b.
+Proof.
+  unfold str_eqb. revert b. induction a as [|x a IH]; intros b H; destruct b as [|y b]; try discriminate; [reflexivity|].
+  cbn [list_eqb] in H. apply andb_true_iff in H. destruct H as [H1 H2]. apply N.eqb_eq in H1. subst y. f_equal. apply IH, H2.
+Qed.
+
+Lemma In_a_ws_items0 c ecmp fmt its f : In (IField f) (a_ws_items c ecmp fmt its) ->
+  exists f0, In (IField f0) its /\ f = a_ws_field c fmt f0.
+Proof.
+  unfold a_ws_items. pose proof (group_items_In its []) as HIn. destruct (group_items its []) as [gs tr]. cbn [fst] in HIn.
+  intros H. apply In_ungroup in H. destruct H as (g & Hg & ->). apply in_map_iff in Hg. destruct Hg as (g0 & <- & Hg0).
+  exists (snd g0). split; [apply HIn; apply (sort_opt_In _ _ _ Hg0)|reflexivity].
+Qed.
+
+Lemma a_ws_field_name c fmt f : f_name (a_ws_field c fmt f) = f_name f.
+Proof.
+  unfold a_ws_field. destruct fmt as [g|]; [|apply rebuild_field_name].
+  destruct (parse_value _) as [[w first] conts]. apply rebuild_field_name.
+Qed.
+
+Lemma items_facts c its more : ind_ok c = true -> wf_items its more = true -> ctl_items_ok its ->
+  forall f, In (IField f) its -> field_facts c f.
+Proof.
+  intros Hi Hwf Hok f Hf. destruct (wf_items_In its more f Hwf Hf) as [m Hm]. apply (ctl_field_facts c f m Hi Hm (Hok f Hf)).
+Qed.
+
+Lemma items_ok_from_facts c its more : wf_items its more = true -> (forall f, In (IField f) its -> field_facts c f) ->
+  items_ok (Some ctl_total) its /\ items_shaped (Some ctl_total) its.
+Proof.
+  intros Hwf Hfa. split; intros f Hf; destruct (Hfa f Hf) as (_ & Hs & _).
+  - destruct (wf_items_In its more f Hwf Hf) as [m Hm]. apply (wf_field_ok (Some ctl_total) f m Hm Hs).
+  - exact Hs.
+Qed.
+
+(* the fields of the reformatted paragraph are again fields the transcription handles, and the
+   formatter answers on them *)
+Lemma result_items_ok c its more : ind_ok c = true -> wf_items its more = true -> (forall f, In (IField f) its -> field_facts c f) ->
+  items_ok (Some ctl_total) (a_ws_items c None (Some ctl_total) its) /\
+  (forall f, In (IField f) (a_ws_items c None (Some ctl_total) its) ->
+     real_format_field (f_name f) (field_input f) = Ok (ctl_total (f_name f) (field_input f))).
+Proof.
+  intros Hi Hwf Hfa. destruct (items_ok_from_facts c its more Hwf Hfa) as [Hok _]. split; intros f Hf;
+    apply In_a_ws_items0 in Hf; destruct Hf as (f0 & Hf0 & ->); destruct (Hfa f0 Hf0) as (_ & _ & _ & Hl & Hd & _).
+  - destruct (Hok f0 Hf0) as (Hn & Hc & Hl0). split; [rewrite a_ws_field_name; exact Hn|]. split; [|exact Hl].
+    unfold a_ws_field. cbn [fmt_lexes] in Hl0. cbv zeta in Hl0.
+    destruct (parse_value (ctl_total (f_name f0) (value_text (field_ws0 f0) (f_first f0) (map snd (f_cont f0))))) as [[w first] conts].
+    apply conts_nonempty_rebuild. apply Hl0.
+  - rewrite a_ws_field_name. exact Hd.
+Qed.
+
+Theorem real_para_proof c its more : ind_ok c = true -> wf_items its more = true -> ctl_items_ok its ->
+  let its1 := a_ws_items c None (Some ctl_total) its in
+  real_control_para_ws c (lblock_tree (LPara its)) = Ok (lblock_tree (LPara its1)) /\
+  flat_map item_pairs its1 = map (a_pair (Some ctl_total)) (fields_of its) /\
+  wf_items its1 more = true /\ items_indented c its1 = true /\
+  real_control_para_ws c (lblock_tree (LPara its1)) = Ok (lblock_tree (LPara its1)).
+Proof.
+  intros Hi Hwf Hok its1. pose proof (items_facts c its more Hi Hwf Hok) as Hfa.
+  destruct (items_ok_from_facts c its more Hwf Hfa) as [Hiok Hsh].
+  destruct (result_items_ok c its more Hi Hwf Hfa) as [Hiok1 Hag1].
+  assert (E1 : real_control_para_ws c (lblock_tree (LPara its)) = Ok (lblock_tree (LPara its1))).
+  { unfold real_control_para_ws, control_para_ws. fold real_format_field.
+    rewrite (para_ws_agree c None real_format_field ctl_total its) by (intros f Hf; apply (Hfa f Hf)).
+    apply (para_ws_items c None None (Some ctl_total) its Hi I Hiok). }
+  split; [exact E1|]. split; [apply (a_ws_items_pairs c None (Some ctl_total) its Hiok)|].
+  split; [apply wf_a_ws_items; assumption|]. split; [apply a_ws_items_indented|].
+  unfold real_control_para_ws, control_para_ws. fold real_format_field.
+  rewrite (para_ws_agree c None real_format_field ctl_total its1 Hag1).
+  change (Some (pure_fmt ctl_total)) with (option_map pure_fmt (Some ctl_total)). cbn [lblock_tree].
+  rewrite (para_ws_items c None None (Some ctl_total) its1 Hi I Hiok1). f_equal. f_equal. f_equal. unfold its1.
+  apply a_ws_items_idem; [exact I| |intros f g _ _; exact I].
+  intros f Hf. apply (Hfa f Hf).
+Qed.
+
+(* ---------------------------------------------------------------- Control::wrap_and_sort *)
+Lemma spec_get_pairs fmt fs k :
+  (forall f, In f fs -> f_name f = k -> a_value fmt f = field_value f) ->
+  spec_get (map (a_pair fmt) fs) k = spec_get (map field_pair fs) k.
+Proof.
+  unfold spec_get. induction fs as [|f r IH]; intros H; [reflexivity|]. cbn [map filter a_pair field_pair fst].
+  destruct (str_eqb (f_name f) k) eqn:E.
+  - unfold a_pair, field_pair. cbn [snd]. rewrite (H f (or_introl eq_refl) (str_eqb_true _ _ E)). reflexivity.
+  - apply IH. intros g Hg. apply H. right. exact Hg.
+Qed.
+
+Lemma fields_of_pairs its : flat_map item_pairs its = map field_pair (fields_of its).
+Proof. induction its as [|it r IH]; [reflexivity|]. destruct it; cbn [fields_of flat_map item_pairs app map]; [f_equal|]; exact IH. Qed.
+Lemma fields_of_In its f : In f (fields_of its) -> In (IField f) its.
+Proof.
+  unfold fields_of. intros H. apply in_flat_map in H. destruct H as (it & Hit & H). destruct it; [destruct H as [<-|[]]; exact Hit|contradiction].
+Qed.
+
+Lemma control_cmp_invariant c its its' :
+  (forall f, In (IField f) its -> field_facts c f) -> (forall f, In (IField f) its' -> field_facts c f) ->
+  control_cmp (spec_para None (Some ctl_total) its) (spec_para None (Some ctl_total) its')
+  = control_cmp (flat_map item_pairs its) (flat_map item_pairs its').
+Proof.
+  intros H H'. unfold spec_para. cbn [option_map sort_opt]. rewrite !fields_of_pairs.
+  assert (E : forall x k, (forall f, In (IField f) x -> field_facts c f) ->
+              str_eqb k Lit.k_Uploaders = false -> is_rel_field k = false ->
+              spec_get (map (a_pair (Some ctl_total)) (fields_of x)) k = spec_get (map field_pair (fields_of x)) k).
+  { intros x k Hx Hu Hr. apply spec_get_pairs. intros f Hf Hn. destruct (Hx f (fields_of_In x f Hf)) as (_ & _ & _ & _ & _ & Hv).
+    apply Hv; rewrite Hn; assumption. }
+  unfold control_cmp.
+  rewrite (E its Lit.k_Source H eq_refl eq_refl), (E its' Lit.k_Source H' eq_refl eq_refl),
+          (E its Lit.k_Package H eq_refl eq_refl), (E its' Lit.k_Package H' eq_refl eq_refl). reflexivity.
+Qed.
+
+Theorem real_control_proof c d : ind_ok c = true -> wf_doc d = true -> ctl_doc_ok (lift d) ->
+  let l1 := a_ws_doc (Some control_cmp) (a_ws_items c None (Some ctl_total)) (lift d) in
+  real_control_ws c (tree_of d) = Ok (ltree_of l1) /\
+  doc_items (ltree_of l1) = map (fun its => map (a_pair (Some ctl_total)) (fields_of its))
+                                (sort_by (on_items control_cmp) (paras_of (lift d))) /\
+  (exists t', from_str (text (ltree_of l1)) = Ok t' /\ doc_items t' = doc_items (ltree_of l1)) /\
+  doc_indented c l1 = true /\ single_blanks SepStart l1 = true /\
+  real_control_ws c (ltree_of l1) = Ok (ltree_of l1).
+Proof.
+  intros Hi Hwf Hok l1.
+  assert (Hl : lwf (lift d) = true) by (apply lwf_lift; exact Hwf).
+  assert (Hfa : forall its, In (LPara its) (lift d) -> forall f, In (IField f) its -> field_facts c f).
+  { intros its Hin. destruct (lwf_para_wf (lift d) its Hl Hin) as [m Hm]. apply (items_facts c its m Hi Hm (Hok its Hin)). }
+  assert (Hsh : doc_shaped (Some ctl_total) (lift d)) by (intros its f Hin Hf; apply (Hfa its Hin f Hf)).
+  (* Control::wrap_and_sort is the standard reformatting with the total formatter, on this document ... *)
+  assert (E1 : real_control_ws c (tree_of d) = std_ws fixed c (Some control_order) None (Some (pure_fmt ctl_total)) (tree_of d)).
+  { unfold real_control_ws, control_ws, std_ws. rewrite <- ltree_of_lift. apply doc_ws_agree. intros its Hin.
+    unfold control_para_ws. fold real_format_field. apply para_ws_agree. intros f Hf. apply (Hfa its Hin f Hf). }
+  destruct (formatter_proof c (Some control_order) (Some control_cmp) None None ctl_total d Hi control_order_agrees I Hwf Hsh)
+    as (F1 & F2 & F3 & F4 & F5). fold l1 in F1, F2, F3, F4, F5.
+  split; [rewrite E1; exact F1|]. split; [exact F2|]. split; [exact F3|]. split; [exact F4|]. split; [exact F5|].
+  (* ... and on its result *)
+  assert (E2 : real_control_ws c (ltree_of l1) = std_ws fixed c (Some control_order) None (Some (pure_fmt ctl_total)) (ltree_of l1)).
+  { unfold real_control_ws, control_ws, std_ws. apply doc_ws_agree. intros x Hx.
+    apply (In_a_ws_doc (Some control_cmp)) in Hx. destruct Hx as (its & Hin & ->).
+    destruct (lwf_para_wf (lift d) its Hl Hin) as [m Hm].
+    destruct (result_items_ok c its m Hi Hm (Hfa its Hin)) as [_ Hag].
+    unfold control_para_ws. fold real_format_field. apply para_ws_agree. intros f Hf.
+    apply In_a_ws_items in Hf. destruct Hf as (f0 & Hf0 & ->). rewrite a_ws_field_name.
+    destruct (Hfa its Hin f0 Hf0) as (_ & _ & _ & _ & Hd & _). exact Hd. }
+  rewrite E2. apply (formatter_idem_proof c (Some control_order) (Some control_cmp) None None ctl_total d Hi control_order_agrees I Hwf Hsh).
+  - intros its f Hin Hf. destruct (Hfa its Hin f Hf) as (_ & _ & H1 & H2 & _). split; assumption.
+  - exact I.
+  - exact control_cmp_consistent.
+  - intros its f g _ _ _. exact I.
+  - intros a b Ha Hb. apply (control_cmp_invariant c a b (Hfa a Ha) (Hfa b Hb)).
+Qed.
